@@ -494,8 +494,64 @@ impl Space for DiffRound {
     }
 }
 
+/// Duration::as_temporal_string with every fractional-digit precision: the printed value is the exact total
+/// rounded to 10^(9-d) ns by the mode (read back from the text itself).
+struct DurationText;
+impl Space for DurationText {
+    fn name(&self) -> String {
+        "c07.duration_text".into()
+    }
+    fn len(&self) -> u64 {
+        10 * 2
+    }
+    fn block(&self) -> u64 {
+        1
+    }
+    fn eval(&self, i: u64, out: &mut Out) {
+        let digits = (i / 2) as u8;
+        let sign: i128 = if i % 2 == 0 { 1 } else { -1 };
+        let step = 10i128.pow(9 - digits as u32);
+        let mut residues = vec![0i128, 1, step / 2 - 1, step / 2, step / 2 + 1, step - 1];
+        residues.retain(|r| *r >= 0 && *r < step);
+        residues.sort();
+        residues.dedup();
+        for k in [0i128, 1, 2, 3, 59, 123_456_789 % (60_000_000_000 / step).max(1)] {
+            for whole_seconds in [0i128, 1, 59, 3_599] {
+                for r in &residues {
+                    let mag = whole_seconds * 1_000_000_000 + (k * step + r) % 1_000_000_000;
+                    if mag == 0 && sign < 0 {
+                        continue;
+                    }
+                    let total = sign * mag;
+                    let Ok(d) = dur10([0.0, 0.0, 0.0, 0.0, 0.0, 0.0, (sign * (mag / 1_000_000_000)) as f64, 0.0, 0.0, (sign * (mag % 1_000_000_000)) as f64]) else { continue };
+                    if *r != 0 {
+                        out.nontrivial += 1;
+                    }
+                    for mode in ALL_MODES {
+                        let want = r4::round(total, step, mode);
+                        let got = call(|| d.as_temporal_string(to_string_opts(Precision::Digit(digits), mode)));
+                        let read = |text: &String| -> Option<(i128, usize)> {
+                            let (neg, rest) = match text.strip_prefix('-') { Some(x) => (true, x), None => (false, text.as_str()) };
+                            let body = rest.strip_prefix("PT")?.strip_suffix('S')?;
+                            let (int, frac) = match body.split_once('.') { Some((a, b)) => (a, b), None => (body, "") };
+                            if !int.bytes().all(|b| b.is_ascii_digit()) || !frac.bytes().all(|b| b.is_ascii_digit()) || int.is_empty() || frac.len() > 9 {
+                                return None;
+                            }
+                            let v = int.parse::<i128>().ok()? * 1_000_000_000 + if frac.is_empty() { 0 } else { frac.parse::<i128>().ok()? * 10i128.pow(9 - frac.len() as u32) };
+                            Some((if neg { -v } else { v }, frac.len()))
+                        };
+                        out.lockstep("Duration::as_temporal_string(digits, mode)", &Ok((want, digits as usize)), &got, |a, b| read(b) == Some(*a), || {
+                            vec![("digits", digits.to_string()), ("mode", mode.name().to_string()), ("total_ns", total.to_string()), ("sign", if sign < 0 { "negative" } else { "positive" }.to_string()), ("residue_class", residue_class(*r, step).to_string())]
+                        });
+                    }
+                }
+            }
+        }
+    }
+}
+
 pub fn spaces(env: &Env) -> Vec<Box<dyn Space>> {
-    vec![Box::new(TimeRound::new(env.tier)), Box::new(InstantRound::new(env.tier)), Box::new(DiffRound::new(env.tier)), Box::new(crate::checks::c08::CalendarTies { name: "c07.calendar_increments" }), Box::new(crate::checks::c09::RoundTies { name: "c07.duration_ties", tier: env.tier })]
+    vec![Box::new(TimeRound::new(env.tier)), Box::new(InstantRound::new(env.tier)), Box::new(DiffRound::new(env.tier)), Box::new(crate::checks::c08::CalendarTies { name: "c07.calendar_increments" }), Box::new(crate::checks::c09::RoundTies { name: "c07.duration_ties", tier: env.tier }), Box::new(DurationText)]
 }
 
 pub fn run(env: &Env) -> i32 {
